@@ -12,6 +12,9 @@ use std::{
 
 type Symbol = u8;
 
+#[cfg(feature = "verif-hooks")]
+pub mod verif_c15;
+
 #[derive(Clone, Copy, PartialEq, Eq, PartialOrd, Ord, Hash)]
 struct NFAStateId(usize);
 
